@@ -921,13 +921,13 @@ func (e *env) bigCases(deep bool) []dlResult {
 			"kind": "ok", "score": 0, "ord": 0}})
 	}
 	out = append(out, e.runDownload(fsc, "scripted", fault{"flood", fsc.A + 1, 0}, proto.MaxBlocksFromNumber, nil, 9300))
-	// a stage aborts while the peer still has far more batches than the rawBatches channel holds (10): 16 one-block batches,
+	// a stage aborts while the peer still has far more batches than the rawBatches channel holds (10): 40 one-block batches,
 	// the first block is not a block (decoder aborts) / has no known parent (importer aborts). The fetcher has to give up
 	// with the group, wherever it is blocked - download must return
 	for i, kind := range []string{"flood-badblock", "flood-orphan"} {
 		bsc := e.newScenario(1, 2, 3, false)
 		bsc.label = "manybatches-A1-H2"
-		for k := 0; k < 16; k++ {
+		for k := 0; k < 40; k++ {
 			n := bsc.A + 1 + k
 			b := new(block.Builder).ParentID(fakeID(n - 1)).Timestamp(uint64(n)).GasLimit(10_000_000).Build()
 			it := item{rawOf(b), trace.Ev{"id": fmt.Sprintf("m%d", n), "num": n, "parent": fmt.Sprintf("m%d", n-1),
